@@ -16,7 +16,7 @@ import warnings
 import numpy as np
 from hypothesis import strategies as st
 
-from vt.core import Violation, call_repo
+from vt.core import Reject, Violation, call_repo
 
 ID = 'C07'
 RULE = (
@@ -66,6 +66,11 @@ def _desc(draw, tier):
     # offset in cells along coord: 0, half a cell, a random sub-cell value, or several cells (the parameter is a plain shift of the deposit; any value below the box is handled by the wrap)
     offfrac = {'0': 0.0, 'half': 0.5, 'rand': draw(st.floats(0.0, 0.999)), 'cells': draw(st.integers(1, max(1, n1d // 2))) + draw(st.sampled_from([0.0, 0.5, 0.25]))}[offk]
     osizes = [draw(st.sampled_from([other, other, 8, 32, 96])), draw(st.sampled_from([other, other, other, 48]))]
+    if offk == 'cells':
+        # _tsc_scatter wraps an index once (valid for grid coordinates below 2g - 1.5 on every axis): keep the other axes >= 4 cells
+        # so that a multi-cell offset along coord stays inside that range on them too (run_case rejects anything beyond it)
+        osizes = [max(o, 4) for o in osizes]
+        other = max(other, 4)
     gridkind = draw(st.sampled_from(['array', 'array', 'tuple', 'tuple', 'int']))
     # particles: list of (boundary kind, index, ulp shift) along coord; other coords choose one of two cells
     npt = draw(st.integers(1, 40))
@@ -262,6 +267,10 @@ def run_case(d):
     weights = None
     if d['weights']:
         weights = (1.0 + (np.arange(len(pos)) % 7) * 0.25).astype(pos.dtype)
+    for ax in range(3):
+        pmax = (float(np.max(pos[:, ax])) + offset) * shape[ax] / box
+        if pmax >= 2 * shape[ax] - 1.6 or (shape[ax] == 2 and pmax >= 2.4):
+            raise Reject('offset beyond the single-wrap range of the kernel on an axis')
     grid, caps = _run_parallel(tsc, pos, shape, box, d, offset, weights, d['nthread'], True)
     if grid is None:
         return {'classes': ['rejected-config'], 'nontrivial': False}
